@@ -3,27 +3,52 @@
 The theorems (Props/C03.lean) are about the score formulas of Model/C01.lean in exact arithmetic; those formulas are
 tied to /repo by C01's correspondence.  This check evaluates the property's clauses on the real search (bounds,
 finiteness, invariances, planted copies incl. next to the border, both precisions) and compares the planted / guard
-cases with the Lean model (c01.float)."""
+cases with the Lean model (c01.float) and the analyzer's strict update with Model/C03.strictFold.
+
+Every clause is evaluated over the dimensions of the property's quantifier *and* of the way the inputs reach the API:
+memory layout and dtype of the arrays handed over, absolute intensity scale, constructor vs. attribute assignment,
+interpolation order, numbers of inner jobs (also more jobs than rotations), analyzer options (default threshold,
+memory-mapped maps), binary / soft / margin masks, target masks with holes, templates that are not cubes, rotations that
+interpolate."""
+import contextlib
+import io
+import os
+
 import numpy as np
 
+from .. import env
 from .. import scoring as S
 from ..driver import dec_float
 
 ID = "C03"
 NORMALISED = ["CORR", "CAM", "FLCSphericalMask", "FLC", "MCC"]
-RULE = ("targets: integer noise, noise on offsets 0..1e3 (1e4 as a separate stream), constant and sparse regions; templates "
-        "random, masks full / binary (CORR, CAM: default full mask only, as the property states); planted copies at interior "
-        "and border-adjacent positions under every sampled grid rotation; float32 and float64 backends; 2-D and 3-D. "
-        "distinct = distinct (clause, score, shapes, target kind, offset, precision, planted position/rotation) tuples")
-ASSUMPTIONS = ["FLCSphericalMask is exercised with masks invariant under the sampled rotations (its documented domain)",
+RULE = ("targets: integer noise, noise on offsets 0..1e3 (1e4 as a separate stream), constant and sparse regions, absolute scales 1e-9..1e3; "
+        "templates random (cubes and boxes, with empty margins, larger than the target on an axis), constant templates as a separate stream; "
+        "masks full / binary / soft / with an empty margin (CORR, CAM: default full mask only, as the property states), MCC target masks with "
+        "holes; arrays handed over C / Fortran ordered, strided, reversed, offset views, read-only, memory-mapped, as float16/32/64, "
+        "(u)int8/16/32, bool masks; constructor or attribute assignment; interpolation order 1 and 3; grid rotations and rotations that "
+        "interpolate; planted copies at interior and border-adjacent positions under every sampled grid rotation, 1..4 inner jobs (also more "
+        "jobs than rotations), default / sentinel threshold, memory-mapped maps; float32 and float64 backends; 2-D and 3-D. "
+        "distinct = distinct (clause, score, shapes, target kind, offset, precision, planted position/rotation, presentation) tuples")
+ASSUMPTIONS = ["FLCSphericalMask is exercised with masks invariant under the sampled rotations (its documented domain) wherever a planted copy is asserted",
                "'up to rounding': |s| <= 1 + tau and planted >= 1 - 10 tau with tau = 1e-3 (float32), 1e-9 (float64), plus 20 eps offset^2 in the bound stream (conditioning of E[x^2]-E[x]^2); "
                "invariance within 10 tau (float32: 2e-2 where the window variance is below 1e-3 of the target variance)",
-               "the exact-arithmetic bound is Pm.C03.flc_formula_sq_le_one / Win.score_sq_le_one; float cancellation is outside it"]
+               "the exact-arithmetic bound is Pm.C03.flc_formula_sq_le_one / Win.score_sq_le_one; float cancellation is outside it",
+               "template masks have a positive sum (an all-zero mask defines no correlation)",
+               "error model of the float variance E[x^2]-E[x]^2 (two FFT products, absolute error ~ 10 eps max E[x^2] over the whole target): a run in which some window has a "
+               "variance that is positive but below 1e3 eps max E[x^2] is evaluated under the known-finding key ...:window-variance-below-fft-noise (|s| 1.2..2.5 observed, float32); "
+               "exactly constant windows stay under the strict bound",
+               "target intensities keep a spread >= 1e-6 wherever invariance / a planted value is asserted (the code's absolute low-variance guard sits at eps = 1.2e-7)",
+               "a planted copy under cubic interpolation is asserted where the code keeps it exact: full-box mask for FLC, any mask for CORR / CAM / FLCSphericalMask (mask not resampled); "
+               "soft (non-binary) masks are exercised for the bound only"]
 TRUSTED = ["C03: IEEE rounding of the FFT pipeline is what the tolerances absorb; catastrophic cancellation is searched for, not excluded"]
 
 TAU = {False: 1e-3, True: 1e-9}
+SENTINEL = -1e30
 
 
+# ----------------------------------------------------------------------------------------------------------------------
+# generators
 def _target(rng, ns, kind, offset):
     if kind == "noise":
         t = rng.integers(-4, 5, size=ns).astype(np.float64)
@@ -55,7 +80,108 @@ def _mask(rng, ms, score):
     return np.ones(ms)
 
 
-SENTINEL = -1e30
+def _soft(rng, mask):
+    """a soft (non-binary) version of a binary mask: weights 0.25 / 0.5 / 1 on its support"""
+    w = rng.choice([0.25, 0.5, 1.0, 1.0], size=mask.shape)
+    return mask * w
+
+
+def _margin_mask(ms):
+    """mask with an empty one-voxel margin (needs extents >= 4 to keep at least 2 voxels per axis)"""
+    m = np.zeros(ms)
+    m[tuple(slice(1, s - 1) for s in ms)] = 1.0
+    return m
+
+
+LAYOUTS = ["C", "C", "F", "strided", "reversed", "offset", "readonly", "memmap"]
+FLOAT_DT = ["float32", "float64"]
+INT_DT = ["int8", "int16", "int32", "uint8", "int64"]
+
+
+def _present(a, layout, dtype, role="a"):
+    """the same values as `a`, stored as `dtype`, handed over with the given memory layout"""
+    a = np.asarray(a).astype(dtype)
+    nd = a.ndim
+    rev = (slice(None, None, -1),) * nd
+    if layout == "F":
+        out = np.asfortranarray(a)
+    elif layout == "strided":
+        big = np.zeros(tuple(2 * s for s in a.shape), dtype=a.dtype)
+        out = big[(slice(None, None, 2),) * nd]
+        out[...] = a
+    elif layout == "reversed":
+        base = np.ascontiguousarray(a[rev])
+        out = base[rev]
+    elif layout == "offset":
+        big = np.full(tuple(s + 3 for s in a.shape), 7, dtype=a.dtype)
+        sl = tuple(slice(1 + (i % 2), 1 + (i % 2) + s) for i, s in enumerate(a.shape))
+        big[sl] = a
+        out = big[sl]
+    elif layout == "readonly":
+        out = a.copy()
+        out.setflags(write=False)
+    elif layout == "memmap":
+        # the same path is written again with other content on every use (file-name keyed caches would show)
+        path = os.path.join(env.scratch(), f"c03_{role}.dat")
+        mm = np.memmap(path, dtype=a.dtype, mode="w+", shape=a.shape)
+        mm[...] = a
+        mm.flush()
+        del mm
+        out = np.memmap(path, dtype=a.dtype, mode="r", shape=a.shape)
+    else:
+        out = np.ascontiguousarray(a)
+    assert out.shape == a.shape and np.array_equal(np.asarray(out), a)
+    return out
+
+
+def _rot2(deg):
+    t = np.deg2rad(deg)
+    return np.array([[np.cos(t), -np.sin(t)], [np.sin(t), np.cos(t)]])
+
+
+def _random_rotation(rng, nd):
+    if nd == 2:
+        return _rot2(float(rng.uniform(5, 355)))
+    from tme.matching_utils import euler_to_rotationmatrix
+    return np.asarray(euler_to_rotationmatrix(tuple(float(x) for x in rng.uniform(10, 170, size=3))), np.float64)
+
+
+# ----------------------------------------------------------------------------------------------------------------------
+# running the real search
+def _search(score, target, template, mask, tmask, R, double, *, pad=True, order=1, n_jobs=1, via="ctor", cb_args=None,
+            record=False):
+    """The real `scan` on the arrays exactly as given (no copy, no cast).  Returns (result tuple | list of per-rotation
+    arrays when record, fourier padding)."""
+    from tme.matching_data import MatchingData
+    from tme.matching_exhaustive import scan, MATCHING_EXHAUSTIVE_REGISTER
+    from tme.analyzer import MaxScoreOverRotations
+    S.set_precision(double)
+    try:
+        with contextlib.redirect_stdout(io.StringIO()):
+            if via == "ctor":
+                md = MatchingData(target=target, template=template, template_mask=mask, target_mask=tmask, rotations=R)
+            else:
+                # everything optional assigned after construction, in the order a script would do it
+                md = MatchingData(target=target, template=template)
+                md.rotations = R
+                if tmask is not None:
+                    md.target_mask = tmask
+                if mask is not None:
+                    md.template_mask = mask
+            setup, scoring = MATCHING_EXHAUSTIVE_REGISTER[score]
+            fp = md.fourier_padding(pad_fourier=pad)
+            if record:
+                S.Recorder.log = []
+                scan(md, setup, scoring, n_jobs=1, callback_class=S.Recorder, callback_class_args={}, pad_fourier=pad,
+                     interpolation_order=order)
+                res = [a for (_, a) in S.Recorder.log]
+            else:
+                args = {"score_threshold": SENTINEL} if cb_args is None else dict(cb_args)
+                res = scan(md, setup, scoring, n_jobs=n_jobs, callback_class=MaxScoreOverRotations, callback_class_args=args,
+                           pad_fourier=pad, interpolation_order=order)
+    finally:
+        S.set_precision(False)
+    return res, tuple(tuple(int(x) for x in p) for p in fp)
 
 
 def _scan(score, target, template, mask, tmask, R, double, pad=True, raw=False):
@@ -82,13 +208,87 @@ def _sym_mask(mask, rots):
     return np.maximum.reduce([S.rotate_grid(mask, p, f) for p, f, _ in rots])
 
 
-def run(ctx):
-    d = ctx.driver
-    rng = ctx.rng("main")
+def _table_matrix(table, rid, nd):
+    mat = None
+    for k, v in table.items():
+        if isinstance(k, (bytes, bytearray)) and int(v) == rid:
+            mat = np.frombuffer(k, dtype=np.float32 if len(k) == 4 * nd * nd else np.float64).reshape(nd, nd)
+        elif not isinstance(k, (bytes, bytearray)) and int(k) == rid:
+            mat = np.asarray(v).reshape(nd, nd)
+    return mat
 
-    # ---------------- bounds and finiteness
-    nb = ctx.budget(60, 600)
+
+def _ill_conditioned(score, target, mask, R, order, double):
+    """Error model of E[x^2] - E[x]^2 formed from two FFT products: the absolute error of the computed window variance is
+    ~ 10 eps max E[x^2] (FFT noise is global: it scales with the largest local second moment of the whole target, not with the
+    window's own), and the score is amplified by sqrt(var / var_computed).  A window whose variance is positive but below
+    1e3 eps max E[x^2] therefore has no rounding-level bound (float32: a value of 1e-3 alone in a corner window of a target of
+    spread 1 gives |s| = 1.2 .. 2.5).  Returns True when some placement of some rotated mask on the zero-extended target is such
+    a window.  Exactly constant windows (variance 0: the guard / noise-over-noise case) are NOT excluded.  MCC clips."""
+    if score == "MCC":
+        return False
+    from numpy.lib.stride_tricks import sliding_window_view
+    from tme.backends import backend as be
+    eps = float(np.finfo(np.float64 if double else np.float32).eps)
+    t = np.asarray(target, np.float64)
+    if score == "CAM":
+        t = (t - t.mean()) / max(float(t.std()), eps)       # the search standardises the target first
+    w0 = np.asarray(mask, np.float64)
+    masks = [w0]
+    if score == "FLC":
+        # the mask is resampled together with the template: exactly what the scoring loop weighs the target with
+        masks = []
+        Rm = np.asarray(R, np.float32).reshape(-1, t.ndim, t.ndim)
+        for r in Rm:
+            out, outm = np.zeros(w0.shape, np.float32), np.zeros(w0.shape, np.float32)
+            be.rigid_transform(arr=w0.astype(np.float32), arr_mask=w0.astype(np.float32), rotation_matrix=r, out=out, out_mask=outm,
+                               use_geometric_center=True, order=order)
+            masks.append(np.maximum(outm.astype(np.float64), 0.0))
+    ax = tuple(range(t.ndim, 2 * t.ndim))
+    for w in masks:
+        n = float(w.sum())
+        if n <= 0:
+            continue
+        pad = np.pad(t, [(m - 1, m - 1) for m in w.shape])
+        W = sliding_window_view(pad, w.shape)
+        s1 = (W * w).sum(axis=ax) / n
+        s2 = (W * W * w).sum(axis=ax) / n
+        var = s2 - s1 ** 2
+        emax = float(s2.max())
+        if emax <= 0:
+            continue
+        # float64 evaluation of the exact variance: below 1e-12 emax it is indistinguishable from an exactly constant window
+        if bool(((var > 1e-12 * emax) & (var < 1e3 * eps * emax)).any()):
+            return True
+    return False
+
+
+ILL = ":window-variance-below-fft-noise"
+
+
+def _failed(ctx, inp, score, exc):
+    """the search raised instead of returning score maps: no finite score exists for this input"""
+    ctx.spec("the search returns finite normalised scores for this input (it raised instead)", inp, False,
+             {"exception": type(exc).__name__, "message": str(exc)[:300]}, key=f"{score}:finite:raised")
+
+
+# ----------------------------------------------------------------------------------------------------------------------
+def run(ctx):
+    import time
+    for part in (_bounds, _bounds_interpolated, _large_offsets, _ill_conditioned_windows, _degenerate_templates, _invariances, _planted, _strict_update,
+                 _planted_interpolated):
+        t0 = time.time()
+        part(ctx)
+        ctx.note("%s: %.1f s" % (part.__name__, time.time() - t0))
+
+
+# ---------------- bounds and finiteness
+def _bounds(ctx):
+    rng = ctx.rng("main")
+    prs = ctx.rng("bounds-presentation")
+    nb = ctx.budget(70, 600)
     kinds = ["noise", "gauss", "constant-regions", "sparse", "zero"]
+    scales = [1.0, 1e-9, 1e-3, 1e3, 1e-6, 1.0, 30.0]
     for it in range(nb):
         score = NORMALISED[it % 5]
         nd = 2 if it % 3 else 3
@@ -111,11 +311,53 @@ def run(ctx):
         R = np.stack([rots[int(i)][2] for i in rng.permutation(len(rots))[:3]])
         if score == "FLCSphericalMask":
             mask = _sym_mask(mask, rots)      # the score's documented domain: rotation-invariant masks
-        sc, _, _, _, raws = _scan(score, target, template, mask, tmask, R, double, pad=bool(rng.random() < 0.7), raw=True)
+        padf = bool(rng.random() < 0.7)
+        # --- dimensions of how the input reaches the API (own random stream: the inputs above stay what they were)
+        shape_case = str(prs.choice(["usual", "usual", "usual", "target==template", "template larger on axis 0"]))
+        if shape_case == "target==template":
+            ns = list(ms)
+            target = _target(prs, ns, kind, offset)
+            tmask = np.ones(ns) if score == "MCC" else None
+        elif shape_case == "template larger on axis 0" and ms[0] >= 3:
+            ns = [ms[0] - 1] + ns[1:]
+            target = _target(prs, ns, kind, offset)
+            tmask = np.ones(ns) if score == "MCC" else None
+            padf = True
+        else:
+            shape_case = "usual"
+        scale = float(scales[int(prs.integers(0, len(scales)))])
+        target = target * scale                      # absolute intensity scale (offset included): 1e-9 .. 1e3
+        mkind = "binary"
+        if score in ("FLC", "FLCSphericalMask", "MCC") and prs.random() < 0.35:
+            mask, mkind = _soft(prs, mask), "soft"
+            if score == "FLCSphericalMask":
+                mask = _sym_mask(mask, rots)
+        if score == "MCC" and prs.random() < 0.5:
+            tmask = (prs.random(ns) < 0.8).astype(np.float64)          # target mask with holes
+            if tmask.sum() == 0:
+                tmask[...] = 1.0
+        order = int(prs.choice([1, 1, 3]))
+        via = str(prs.choice(["ctor", "attr"]))
+        lay = [str(prs.choice(LAYOUTS)) for _ in range(4)]
+        dts = [str(prs.choice(FLOAT_DT + (["float16"] if not double and scale == 1.0 and offset <= 10 else []))) for _ in range(2)]
+        mdt = str(prs.choice(FLOAT_DT + (["bool", "uint8", "int32"] if mkind == "binary" else [])))
+        tmdt = str(prs.choice(FLOAT_DT + ["bool", "uint8"]))
         # "up to rounding": the variance is formed as E[x^2] - E[x]^2, whose rounding error grows with (offset / spread)^2 * eps;
-        # the spread of every generated target is O(1), so the allowance is tau + 20 eps offset^2 with tau = 5e-3 (float32) / 1e-9 (float64)
+        # the spread of every generated target is O(1) * scale, so the allowance is tau + 20 eps offset^2 with tau = 5e-3 (float32) /
+        # 1e-9 (float64) at every scale (binary floating point is scale free; only the code's absolute guards are not)
         tau = (TAU[True] if double else 5 * TAU[False]) + 20 * float(np.finfo(np.float64 if double else np.float32).eps) * offset ** 2
-        inp = {"score": score, "ns": ns, "ms": ms, "target": kind, "offset": offset, "double": double, "mask_full": bool(mask.all())}
+        if "float16" in dts:
+            tau += 0.0       # the bound is about the values the search sees; float16 storage only quantises the input
+        inp = {"score": score, "ns": ns, "ms": ms, "target": kind, "offset": offset, "double": double, "mask_full": bool(mask.all()),
+               "scale": scale, "mask_kind": mkind, "target_mask_holes": bool(tmask is not None and not tmask.all()), "order": order,
+               "via": via, "layouts": lay, "dtypes": dts + [mdt, tmdt], "shape_case": shape_case, "pad_fourier": padf}
+        try:
+            raws, _ = _search(score, _present(target, lay[0], dts[0], "target"), _present(template, lay[1], dts[1], "template"),
+                              _present(mask, lay[2], mdt, "mask"), None if tmask is None else _present(tmask, lay[3], tmdt, "tmask"),
+                              R, double, pad=padf, order=order, via=via, record=True)
+        except Exception as e:  # noqa
+            _failed(ctx, inp, score, e)
+            continue
         allraw = np.concatenate([a.reshape(-1) for a in raws])
         finite = bool(np.isfinite(allraw).all())
         mx = float(np.nanmax(np.abs(allraw))) if np.isfinite(allraw).any() else 0.0
@@ -123,16 +365,85 @@ def run(ctx):
         ctx.spec("normalised score finite for every input (constant / empty regions included)", inp, finite,
                  {"non-finite voxels": int((~np.isfinite(allraw)).sum()), "of": int(allraw.size)},
                  key=f"{score}:finite" + (":whole-target-constant" if whole_constant else ""))
+        ill = _ill_conditioned(score, np.asarray(_present(target, "C", dts[0])), np.asarray(_present(mask, "C", mdt)), R, order, double)
+        inp["ill_conditioned_window"] = ill
         ctx.spec("normalised score within [-1, 1] up to rounding", inp, mx <= 1 + tau, {"max |score|": mx, "tau": tau},
-                 key=f"{score}:bound" + (":float32" if not double else ""))
-        ctx.distinct(("bound", score, tuple(ns), tuple(ms), kind, offset, double))
+                 key=f"{score}:bound" + (":float32" if not double else "") + (ILL if ill else ""), size=10 ** 6 if ill else None)
+        ctx.count("bound:ill-conditioned-window" if ill else "bound:well-conditioned")
+        ctx.distinct(("bound", score, tuple(ns), tuple(ms), kind, offset, double, scale, mkind, order, tuple(lay), tuple(dts)))
         ctx.count("bound:" + kind)
         ctx.count("offset:%g" % offset)
+        ctx.count("scale:%g" % scale)
         ctx.count("precision:" + ("f64" if double else "f32"))
+        ctx.count("mask:" + mkind)
+        ctx.count("order:%d" % order)
+        ctx.count("via:" + via)
+        ctx.count("shape:" + shape_case)
+        for x in lay:
+            ctx.count("layout:" + x)
+        for x in dts + [mdt]:
+            ctx.count("dtype:" + x)
         if it < 2:
             ctx.sample(inp)
 
-    # ---------------- large offsets in single precision (catastrophic cancellation in E[x^2] - E[x]^2)
+
+# ---------------- bounds under rotations that interpolate (random angles; template and mask are resampled by the library)
+def _bounds_interpolated(ctx):
+    rng = ctx.rng("bounds-interpolated")
+    kinds = ["gauss", "noise", "sparse", "constant-regions"]
+    for it in range(ctx.budget(25, 250)):
+        score = NORMALISED[it % 5]
+        nd = 2 if it % 3 else 3
+        double = bool((it // 5) % 2)
+        ms = [int(x) for x in rng.integers(4, 8 if nd == 2 else 6, size=nd)]
+        ns = [int(rng.integers(m + 1, m + (10 if nd == 2 else 5))) for m in ms]
+        kind = kinds[(it // 10) % 4]
+        offset = float(rng.choice([0.0, 10.0, 100.0] if double else [0.0, 3.0, 10.0]))
+        target = _target(rng, ns, kind, offset)
+        template = _template(rng, ms) + float(rng.choice([0.0, 5.0]))
+        mask = _mask(rng, ms, score)
+        mkind = "binary"
+        if score in ("FLC", "MCC", "FLCSphericalMask") and rng.random() < 0.3:
+            mask, mkind = _soft(rng, mask), "soft"
+        tmask = None
+        if score == "MCC":
+            tmask = np.ones(ns) if rng.random() < 0.5 else (rng.random(ns) < 0.85).astype(np.float64)
+            if tmask.sum() == 0:
+                tmask[...] = 1.0
+        R = np.stack([_random_rotation(rng, nd) for _ in range(2)])
+        order = int(rng.choice([1, 3]))
+        padf = bool(rng.random() < 0.7)
+        tau = (TAU[True] if double else 5 * TAU[False]) + 20 * float(np.finfo(np.float64 if double else np.float32).eps) * offset ** 2
+        inp = {"score": score, "ns": ns, "ms": ms, "target": kind, "offset": offset, "double": double, "mask_kind": mkind,
+               "mask_full": bool(mask.all()), "order": order, "rotations": R.tolist(), "pad_fourier": padf, "interpolated": True,
+               "target_mask_holes": bool(tmask is not None and not tmask.all())}
+        dt = np.float64 if double else np.float32
+        try:
+            raws, _ = _search(score, target.astype(dt), template.astype(dt), mask.astype(dt), None if tmask is None else tmask.astype(dt),
+                              R, double, pad=padf, order=order, record=True)
+        except Exception as e:  # noqa
+            _failed(ctx, inp, score, e)
+            continue
+        allraw = np.concatenate([a.reshape(-1) for a in raws])
+        finite = bool(np.isfinite(allraw).all())
+        mx = float(np.nanmax(np.abs(allraw))) if np.isfinite(allraw).any() else 0.0
+        ctx.spec("normalised score finite under rotations that interpolate", inp, finite,
+                 {"non-finite voxels": int((~np.isfinite(allraw)).sum()), "of": int(allraw.size)}, key=f"{score}:finite:interpolated-rotation")
+        # CORR / CAM rotate the standardised template without centring it again: with an interpolating rotation its sum is no
+        # longer zero and the local mean of the target leaks into the numerator (known finding, own key)
+        ill = score not in ("CORR", "CAM") and _ill_conditioned(score, target.astype(dt), mask.astype(dt), R, order, double)
+        inp["ill_conditioned_window"] = ill
+        ctx.spec("normalised score within [-1, 1] up to rounding under rotations that interpolate", inp, mx <= 1 + tau,
+                 {"max |score|": mx, "tau": tau},
+                 key=(f"{score}:bound" + (":float32" if not double else "") + ILL) if ill else f"{score}:bound:interpolated-rotation",
+                 size=10 ** 6 if (ill or score in ("CORR", "CAM")) else None)
+        ctx.distinct(("bound-interp", score, tuple(ns), tuple(ms), kind, offset, double, order, mkind))
+        ctx.count("bound-interpolated:" + score)
+
+
+# ---------------- large offsets in single precision (catastrophic cancellation in E[x^2] - E[x]^2)
+def _large_offsets(ctx):
+    rng = ctx.rng("large-offsets")
     for it in range(ctx.budget(12, 60)):
         score = ["FLC", "FLCSphericalMask", "CORR", "CAM", "MCC"][it % 5]
         ns = [int(x) for x in rng.integers(20, 40, size=2)]
@@ -148,7 +459,84 @@ def run(ctx):
         ctx.count("offset:>=1e3:float32")
         ctx.distinct(("offset-f32", score, tuple(ns), tuple(ms), off))
 
-    # ---------------- invariances
+
+# ---------------- float32: a window whose variance is positive but below the FFT noise of the second moment (known finding)
+def _ill_conditioned_windows(ctx):
+    rng = ctx.rng("ill-conditioned-windows")
+    for it in range(ctx.budget(8, 40)):
+        score = ["CORR", "CAM", "FLCSphericalMask", "FLC"][it % 4]
+        ns, ms = [int(x) for x in rng.integers(6, 9, size=2)], [3, 3]
+        target = rng.normal(1, 1, size=ns)
+        v = float(rng.choice([1e-3, -1e-3, 3e-4, 2e-3]))
+        target[0:2, 0:2] = [[v, 0.0], [0.0, 0.0]]           # the corner window (template centre on voxel (0, 0)) sees v and zeros only
+        template = _template(rng, ms)
+        inp = {"score": score, "ns": ns, "ms": ms, "double": False, "corner_value": v, "target": "N(1,1), corner block [[v,0],[0,0]]"}
+        try:
+            raws, _ = _search(score, target.astype(np.float32), template.astype(np.float32), np.ones(ms, np.float32), None, np.eye(2)[None],
+                              False, record=True)
+        except Exception as e:  # noqa
+            _failed(ctx, inp, score, e)
+            continue
+        a = np.concatenate([x.reshape(-1) for x in raws])
+        ill = _ill_conditioned(score, target.astype(np.float32), np.ones(ms), np.eye(2)[None], 1, False)
+        ctx.spec("normalised score finite (window variance below the FFT noise)", inp, bool(np.isfinite(a).all()), None, key=f"{score}:finite")
+        mx = float(np.nanmax(np.abs(a)))
+        ctx.spec("normalised score within [-1, 1] up to rounding (float32, a window whose variance is below the FFT noise of E[x^2])", inp,
+                 mx <= 1 + 5 * TAU[False], {"max |score|": mx, "classified ill-conditioned": ill},
+                 key=f"{score}:bound:float32" + (ILL if ill else ""), size=10 ** 6)
+        ctx.count("ill-conditioned-window:" + score)
+        ctx.distinct(("ill", score, tuple(ns), v, it))
+
+
+# ---------------- templates without spread (constant, constant under the mask): "finite for any input"
+def _degenerate_templates(ctx):
+    rng = ctx.rng("degenerate-templates")
+    for it in range(ctx.budget(15, 100)):
+        score = NORMALISED[it % 5]
+        nd = 2 if it % 2 else 3
+        double = bool((it // 5) % 2)
+        ms = [int(x) for x in rng.integers(2, 5, size=nd)]
+        ns = [int(rng.integers(m + 1, m + 6)) for m in ms]
+        case = ["constant", "constant under the mask", "zero"][(it // 5) % 3]
+        value = float(rng.choice([2.0, -3.0, 0.5, 1.0]))       # exactly representable: mean and variance are computed exactly
+        mask = np.ones(ms)
+        template = np.full(ms, value)
+        if case == "zero":
+            template = np.zeros(ms)
+        elif case == "constant under the mask" and score not in ("CORR", "CAM"):
+            mask = _mask(rng, ms, score)
+            if mask.all():
+                mask[(0,) * nd] = 0.0
+            template = np.where(mask > 0, value, _template(rng, ms))
+        rots = [r for r in S.grid_rotations(nd) if S.rot_ok_for_shape(r[0], ms)]
+        if score == "FLCSphericalMask" and not mask.all():
+            mask = _sym_mask(mask, rots)
+            template = np.where(mask > 0, value, template)
+        R = np.stack([rots[int(i)][2] for i in rng.permutation(len(rots))[:2]])
+        target = _target(rng, ns, ["gauss", "noise", "sparse"][it % 3], float(rng.choice([0.0, 5.0])))
+        tmask = np.ones(ns) if score == "MCC" else None
+        dt = np.float64 if double else np.float32
+        inp = {"score": score, "ns": ns, "ms": ms, "template": case, "value": value, "double": double, "mask_full": bool(mask.all())}
+        try:
+            raws, _ = _search(score, target.astype(dt), template.astype(dt), mask.astype(dt), None if tmask is None else tmask.astype(dt),
+                              R, double, pad=bool(it % 2), order=1, record=True)
+        except Exception as e:  # noqa
+            _failed(ctx, inp, score, e)
+            continue
+        allraw = np.concatenate([a.reshape(-1) for a in raws])
+        finite = bool(np.isfinite(allraw).all())
+        mx = float(np.nanmax(np.abs(allraw))) if np.isfinite(allraw).any() else 0.0
+        ctx.spec("normalised score finite for a template without spread (constant / constant under the mask)", inp, finite,
+                 {"non-finite voxels": int((~np.isfinite(allraw)).sum()), "of": int(allraw.size)}, key="finite:template-without-spread")
+        ctx.spec("normalised score within [-1, 1] for a template without spread", inp, mx <= 1 + (TAU[True] if double else 5 * TAU[False]),
+                 {"max |score|": mx}, key="bound:template-without-spread")
+        ctx.distinct(("degenerate", score, tuple(ns), tuple(ms), case, value, double))
+        ctx.count("template-without-spread:" + case)
+
+
+# ---------------- invariances
+def _invariances(ctx):
+    rng = ctx.rng("invariances")
     ni = ctx.budget(30, 300)
     for it in range(ni):
         score = NORMALISED[it % 5]
@@ -160,47 +548,88 @@ def run(ctx):
         template = _template(rng, ms)
         mask = _mask(rng, ms, score)
         tmask = np.ones(ns) if score == "MCC" else None
-        R = np.eye(nd)[None]
+        rots = [r for r in S.grid_rotations(nd) if S.rot_ok_for_shape(r[0], ms)]
+        if it % 3 == 0:
+            R = np.eye(nd)[None]
+        else:
+            # the invariance holds per rotation; the aggregated map over a few grid rotations is compared
+            if score == "FLCSphericalMask":
+                mask = _sym_mask(mask, rots)
+            R = np.stack([rots[int(i)][2] for i in rng.permutation(len(rots))[:2]])
         # every score meets every scale (small absolute intensities move windows towards the eps guard)
-        c1 = [0.5, 2.0, 1e-3, 100.0, 7.0][(it // 5) % 5]
+        c1 = [0.5, 2.0, 1e-3, 100.0, 7.0, 1e-6, 3e3][(it // 5) % 7]
         c2 = [1e-4, 3.0, 1e3, 0.25, 50.0][(it // 5) % 5]
         off = float([-3.0, 400.0, 1.0, -2000.0, 20.0][(it // 5 + it) % 5])   # incl. offsets of hundreds of template deviations
         base, _, _, _ = _scan(score, target, template, mask, tmask, R, double)
         s_t, _, _, _ = _scan(score, target, template * c1, mask, tmask, R, double)
         s_o, _, _, _ = _scan(score, target, template + off, mask, tmask, R, double)
         s_f, _, _, _ = _scan(score, target * c2, template, mask, tmask, R, double)
-        tol = 10 * TAU[double]
         inp = {"score": score, "ns": ns, "ms": ms, "double": double, "c_template": c1, "offset_template": off, "c_target": c2,
-               "mask_full": bool(mask.all())}
+               "mask_full": bool(mask.all()), "n_rot": int(len(R))}
         # windows with (near) zero variance sit in the guard branch, where eps makes the value scale dependent
-        wv = S.window_var(target, mask)
-        stable = wv > 1e-6 * max(wv.max(), 1e-30)
+        stable = np.ones(ns, bool)
+        for (pp, ff, RR) in rots:
+            if any(np.allclose(RR, r_) for r_ in R):
+                wv = S.window_var(target, S.rotate_grid(mask, pp, ff))
+                stable &= wv > 1e-6 * max(wv.max(), 1e-30)
         for name, arr in (("template scaled by c>0", s_t), ("template offset", s_o), ("target scaled by c>0", s_f)):
-            dd = float(np.max(np.abs(arr - base)[stable])) if stable.any() else 0.0
+            both = stable & ~np.isnan(arr) & ~np.isnan(base)
+            dd = float(np.max(np.abs(arr - base)[both])) if both.any() else 0.0
+            lost = bool((np.isnan(arr) != np.isnan(base))[stable].any())
             # the template is standardised after its mean has been removed, so an offset costs ~1e-5 even at 2000 (float32):
             # tau itself is the allowance there, not 10 tau
             tol = TAU[double] if name == "template offset" else 10 * TAU[double]
-            ctx.spec(f"score unchanged: {name}", inp, dd <= tol, {"max diff": dd, "tol": tol},
+            ctx.spec(f"score unchanged: {name}", inp, dd <= tol and not lost, {"max diff": dd, "tol": tol, "voxels scored in one run only": lost},
                      key=f"{score}:invariance:{name.split()[0]}-{name.split()[1]}")
-        ctx.distinct(("inv", score, tuple(ns), tuple(ms), c1, c2, off, double))
+        ctx.distinct(("inv", score, tuple(ns), tuple(ms), c1, c2, off, double, len(R)))
         ctx.count("invariance:" + score)
+        ctx.count("invariance:n_rot=%d" % len(R))
 
-    # ---------------- planted copies
-    npl = ctx.budget(40, 400)
+
+# ---------------- planted copies
+def _planted(ctx):
+    d = ctx.driver
+    rng = ctx.rng("planted")
+    npl = ctx.budget(60, 400)
+    prev_shapes = {}
     for it in range(npl):
         score = NORMALISED[it % 5]
         nd = 2 if it % 2 else 3
         double = bool((it // 5) % 2)
-        m = int(rng.integers(3, 5)) if it % 3 else int(rng.choice([5, 6, 5, 9] if nd == 2 else [5, 5, 6]))
-        ms = [m] * nd
-        ns = [int(rng.integers(2 * m + 1, 2 * m + (7 if nd == 2 else 4))) for _ in range(nd)]
+        # template extents: cubes (3, 4 and the round-half-even traps 5, 9, 13) and, every fourth case, boxes that are not cubes
+        if it % 4 == 3:
+            ms = [int(x) for x in rng.integers(3, 7 if nd == 2 else 6, size=nd)]
+            if len(set(ms)) == 1:
+                ms[0] += 1
+        else:
+            m = int(rng.integers(3, 5)) if it % 3 else int(rng.choice([5, 6, 5, 9, 13] if nd == 2 else [5, 5, 6]))
+            ms = [m] * nd
+        ns = [int(rng.integers(2 * m + 1, 2 * m + (7 if nd == 2 else 4))) for m in ms]
+        if nd in prev_shapes and it % 5 == 4:
+            ns, ms = prev_shapes[nd]        # the same shapes again with other content (shape keyed state would show)
+        prev_shapes[nd] = (list(ns), list(ms))
+        vclass = "int" if it % 6 == 5 else "float"          # integer valued arrays can be handed over as integer dtypes
         template = _template(rng, ms)
+        if vclass == "int":
+            template = np.round(template)
+            if np.ptp(template) == 0:
+                template[(0,) * nd] += 1
+        margin = bool(it % 7 == 6 and min(ms) >= 4)
         mask = _mask(rng, ms, score)
+        mkind = "full" if mask.all() else "binary"
+        if margin:
+            # template with an empty margin: the density lives in the inner box; the mask (where one is allowed) follows it
+            inner = _margin_mask(ms)
+            template = template * inner
+            if score not in ("CORR", "CAM"):
+                mask, mkind = inner, "margin"
         padf = bool((it // 2) % 2 == 0)        # with and without Fourier padding (the copy lies inside the target either way)
         rots = [r for r in S.grid_rotations(nd) if S.rot_ok_for_shape(r[0], ms)]
+        # (soft masks: the code multiplies the template by the mask before and after standardising it, so a window equal to the
+        # template is not an exact copy of what is correlated - bounds only, see _bounds)
         if score == "FLCSphericalMask":
             mask = _sym_mask(mask, rots)
-        sel = rng.permutation(len(rots))[: min(len(rots), 4 if nd == 2 else 6)]
+        sel = rng.permutation(len(rots))[: min(len(rots), int(rng.integers(1, 5 if nd == 2 else 7)))]
         R = np.stack([rots[int(i)][2] for i in sel])
         which = int(rng.integers(0, len(sel)))
         perm, flip, _ = rots[int(sel[which])]
@@ -208,68 +637,206 @@ def run(ctx):
         # position p = translation of the template voxel m//2; the copy occupies [p - m//2, p - m//2 + m)
         border = bool(it % 3 == 0)
         p = []
-        for n in ns:
+        for n, m in zip(ns, ms):
             lo, hi = m // 2, n - 1 - (m - 1) // 2
             p.append(int(rng.choice([lo, hi])) if border else int(rng.integers(lo, hi + 1)))
-        target = rng.normal(0, 1, size=ns) * 2.0 + float(rng.choice([0.0, 5.0]))
-        sl = tuple(slice(pi - m // 2, pi - m // 2 + m) for pi in p)
+        if vclass == "int":
+            target = rng.integers(-6, 7, size=ns).astype(np.float64) + float(rng.choice([0.0, 5.0]))
+        else:
+            target = rng.normal(0, 1, size=ns) * 2.0 + float(rng.choice([0.0, 5.0]))
+        sl = tuple(slice(pi - m // 2, pi - m // 2 + m) for pi, m in zip(p, ms))
         target[sl] = gR
         tmask = np.ones(ns) if score == "MCC" else None
-        njobs = 2 if it % 4 == 1 else 1       # rotations spread over two inner jobs and merged
-        S.set_precision(double)
-        try:
-            res, fp = S.run_scan(score, target, template, mask=mask, target_mask=tmask, rotations=R, pad=padf, order=1,
-                                 dtype=np.float64 if double else np.float32, n_jobs=njobs)
-        finally:
-            S.set_precision(False)
-        sc = np.asarray(res[0], np.float64).copy()
-        sc[sc <= SENTINEL / 2] = np.nan
-        rot_ids, table = np.asarray(res[2]), dict(res[3])
+        if score == "MCC" and it % 2 == 0:
+            tmask = (rng.random(ns) < 0.85).astype(np.float64)     # holes in the target mask, none of them under the copy
+            tmask[sl] = 1.0
+        # absolute intensity scales (float valued inputs only): template and target independently
+        c_t = c_g = 1.0
+        if vclass == "float":
+            # every score meets every scale in both precisions (blocks of five iterations = one per score; precision alternates per block)
+            c_t = [1.0, 1e-6, 1e-3, 1e3, 50.0][(it // 10) % 5]
+            c_g = [1e-3, 1.0, 1e3, 7.0, 1e-6][(it // 10) % 5]
+        # rotations spread over inner jobs and merged; the number of rotations (1..6) is often not a multiple of the number of jobs
+        # and sometimes smaller.  Equal job counts come in blocks: every change of the count restarts the worker pool (~2 s).
+        njobs = [1, 2, 2, 1, 3, 3, 1, 4, 4, 1, 1, 1][(it // 5) % 12]
+        # cubic interpolation resamples the mask without prefilter, i.e. smooths it ((1,4,1)/6 per axis even for a grid rotation): FLC
+        # then weighs voxels next to the mask's support, where the standardised template was zeroed, and MCC is inflated to its clip
+        # (ties at 1).  A copy is exact under order 3 for the full-box mask (FLC), and for CORR / CAM / FLCSphericalMask, whose mask is
+        # not resampled.
+        order = 3 if (it // 5) % 3 == 1 and score != "MCC" and (score != "FLC" or mkind == "full") else 1
+        via = "attr" if it % 4 == 2 else "ctor"
+        cb = None
+        cbname = "sentinel"
+        if it % 6 == 1:
+            cb, cbname = {}, "default"                      # the analyzer's default threshold (0)
+        elif it % 6 == 4:
+            cb, cbname = {"score_threshold": SENTINEL, "use_memmap": True}, "memmap"
+        lay = [str(rng.choice(LAYOUTS)) for _ in range(4)]
+        if vclass == "int":
+            lo_ok = target.min() >= 0 and template.min() >= 0
+            pool = FLOAT_DT + INT_DT if lo_ok else FLOAT_DT + [x for x in INT_DT if x != "uint8"]
+            dts = [str(rng.choice(pool)) for _ in range(2)]
+        else:
+            dts = [str(rng.choice(FLOAT_DT)) for _ in range(2)]
+        mdt = str(rng.choice(FLOAT_DT + (["bool", "uint8", "int32"] if mkind != "soft" else [])))
         tau = TAU[double]
+        # CORR / CAM: the default full-box mask is also reached by leaving the argument out
+        mask_arg = None if (score in ("CORR", "CAM") and it % 2) else _present(mask, lay[2], mdt, "mask")
+        Rarg = R.astype(np.float32) if it % 3 else R.astype(np.float64)
+        if len(sel) == 1 and it % 2:
+            Rarg = Rarg[0]                       # a single rotation given as a (d, d) matrix
         inp = {"score": score, "ns": ns, "ms": ms, "planted_at": p, "n_jobs": njobs, "border": border, "rotation": {"perm": perm, "flip": flip},
-               "n_rot": int(len(sel)), "double": double, "mask_full": bool(mask.all()), "pad_fourier": padf}
+               "n_rot": int(len(sel)), "double": double, "mask_full": bool(mask.all()), "mask_kind": mkind, "pad_fourier": padf,
+               "order": order, "via": via, "analyzer": cbname, "layouts": lay, "dtypes": dts + [mdt], "values": vclass,
+               "c_target": c_t, "c_template": c_g, "target_mask_holes": bool(tmask is not None and not tmask.all())}
+        try:
+            res, fp = _search(score, _present(target * c_t, lay[0], dts[0], "target"), _present(template * c_g, lay[1], dts[1], "template"),
+                              mask_arg, None if tmask is None else _present(tmask, lay[3], "float32", "tmask"),
+                              Rarg, double, pad=padf, order=order, n_jobs=njobs, via=via, cb_args=cb)
+        except Exception as e:  # noqa
+            _failed(ctx, inp, score, e)
+            continue
+        if res is None:
+            _failed(ctx, inp, score, RuntimeError("scan returned None"))
+            continue
+        sc = np.asarray(res[0], np.float64).copy()
+        if cbname != "default":
+            sc[sc <= SENTINEL / 2] = np.nan
+        rot_ids, table = np.asarray(res[2]), dict(res[3])
+        ctx.spec("score and rotation maps have the target's shape", inp, list(sc.shape) == list(ns) and list(rot_ids.shape) == list(ns),
+                 {"scores": list(sc.shape), "rotations": list(rot_ids.shape)}, key=f"{score}:planted:shape")
+        if list(sc.shape) != list(ns) or not np.isfinite(sc).any():
+            ctx.spec("planted copy: highest score of the whole search is at the planted position", inp, False,
+                     {"finite scores": int(np.isfinite(sc).sum())}, key=f"{score}:planted:position")
+            continue
         best = np.unravel_index(int(np.nanargmax(sc)), sc.shape)
-        okpos = [int(x) for x in best] == p or abs(sc[tuple(p)] - np.nanmax(sc)) <= tau
+        at_p = float(sc[tuple(p)])
+        okpos = [int(x) for x in best] == p or abs(at_p - np.nanmax(sc)) <= tau
         ctx.spec("planted copy: highest score of the whole search is at the planted position", inp, bool(okpos),
-                 {"argmax": [int(x) for x in best], "score at planted": float(sc[tuple(p)]), "max": float(np.nanmax(sc))},
+                 {"argmax": [int(x) for x in best], "score at planted": at_p, "max": float(np.nanmax(sc))},
                  key=f"{score}:planted:position")
-        ctx.spec("planted copy: score close to 1", inp, bool(sc[tuple(p)] >= 1 - 10 * tau), {"score at planted": float(sc[tuple(p)])},
+        ctx.spec("planted copy: score close to 1", inp, bool(at_p >= 1 - 10 * tau), {"score at planted": at_p},
                  key=f"{score}:planted:value")
+        ill = _ill_conditioned(score, np.asarray(_present(target * c_t, "C", dts[0])), mask, R, order, double)
+        inp["ill_conditioned_window"] = ill
+        ctx.spec("every aggregated score is finite and within [-1, 1] up to rounding", inp,
+                 bool(np.nanmax(np.abs(sc)) <= 1 + (tau if double else 5 * tau) + 20 * float(np.finfo(np.float64 if double else np.float32).eps) * 25.0),
+                 {"max |score|": float(np.nanmax(np.abs(sc)))}, key=f"{score}:bound" + (":float32" if not double else "") + (ILL if ill else ""),
+                 size=10 ** 6 if ill else None)
         # reported rotation
         rid = int(rot_ids[tuple(p)])
-        mat = None
-        for k, v in table.items():
-            if isinstance(k, (bytes, bytearray)) and int(v) == rid:
-                mat = np.frombuffer(k, dtype=np.float32 if len(k) == 4 * nd * nd else np.float64).reshape(nd, nd)
-            elif not isinstance(k, (bytes, bytearray)) and int(k) == rid:
-                mat = np.asarray(v).reshape(nd, nd)
+        mat = _table_matrix(table, rid, nd)
         same_rot = mat is not None and np.allclose(mat, R[which], atol=1e-6)
         if mat is not None and not same_rot:
             # another sampled rotation may map the (masked) template onto itself: accept when it reproduces the copy
             for (pp, ff, RR) in rots:
-                if np.allclose(RR, mat, atol=1e-6):
+                if np.allclose(RR, mat, atol=1e-6) and any(np.allclose(RR, r_, atol=1e-6) for r_ in R):
                     same_rot = bool(np.allclose(S.rotate_grid(template, pp, ff) * S.rotate_grid(mask, pp, ff), gR * S.rotate_grid(mask, perm, flip)))
-        ctx.spec("planted copy: reported with the planted rotation", inp, bool(same_rot), {"id": rid}, key=f"{score}:planted:rotation")
+        ctx.spec("planted copy: reported with the planted rotation", inp, bool(same_rot), {"id": rid, "reported": None if mat is None else mat.tolist()},
+                 key=f"{score}:planted:rotation")
         # the Lean model on the same input: planted value is 1 there as well (tie of the formulas used by the theorems)
-        if it % 4 == 0 and score != "MCC":
+        if it % 4 == 0 and score != "MCC" and order == 1 and mkind != "soft" and len(set(ms)) == 1:
             eps = float(np.finfo(np.float64 if double else np.float32).eps)
             r = d.call("c01.float", what="spec", score=score, pad=padf, mode="same", ns=ns, ms=ms, Ns=[int(x) for x in fp[1]],
-                       perm=perm, flip=flip, eps=eps, order=1, target=target.reshape(-1).tolist(), template=template.reshape(-1).tolist(),
+                       perm=perm, flip=flip, eps=eps, order=1, target=(target * c_t).reshape(-1).tolist(), template=(template * c_g).reshape(-1).tolist(),
                        mask=mask.reshape(-1).tolist())
             mv = np.array([dec_float(x) for x in r]).reshape(ns)
             ctx.agree("Lean score formula at the planted position == 1 (and == real score)", inp,
                       bool(abs(mv[tuple(p)] - 1) <= 1e-9 and abs(mv[tuple(p)] - sc[tuple(p)]) <= 10 * tau), True)
-        ctx.distinct(("planted", score, tuple(ns), tuple(p), tuple(perm), tuple(flip), double, border))
+        ctx.distinct(("planted", score, tuple(ns), tuple(ms), tuple(p), tuple(perm), tuple(flip), double, border, njobs, order, cbname, tuple(lay), tuple(dts)))
         ctx.count("planted:" + ("border" if border else "interior"))
         ctx.count("planted:" + score)
+        ctx.count("planted:n_jobs=%d" % njobs + (">n_rot" if njobs > len(sel) else ""))
+        ctx.count("planted:analyzer=" + cbname)
+        ctx.count("planted:order=%d" % order)
+        ctx.count("planted:mask=" + mkind)
+        ctx.count("planted:values=" + vclass)
+        ctx.count("planted:c_target=%g:%s" % (c_t, "f64" if double else "f32"))
+        ctx.count("planted:c_template=%g" % c_g)
+        ctx.count("planted:template=" + ("cube" if len(set(ms)) == 1 else "box"))
         if it < 2:
             ctx.sample(inp)
 
-    # ---------------- planted copies under rotations that are NOT grid rotations (interpolated by the library itself)
-    # The copy is produced with the backend's own rigid_transform, added on a target with a non-zero background level; the
-    # default full-box mask (FLC) is clipped by such rotations, the spherical one (FLCSphericalMask) is not.
+
+# ---------------- the analyzer's strict update against Model/C03.strictFold (ties, scores equal to the threshold)
+def _strict_update(ctx):
+    from multiprocessing.managers import SharedMemoryManager
+    from tme.analyzer import MaxScoreOverRotations
+    from tme.backends import backend as be
+    d = ctx.driver
+    rng = ctx.rng("strict-update")
+    reqs, impls, inps = [], [], []
+    with SharedMemoryManager() as smh:
+        for it in range(ctx.budget(24, 200)):
+            nd = int(rng.integers(1, 4))
+            shape = [int(x) for x in rng.integers(1, 5, size=nd)]
+            size = int(np.prod(shape))
+            nrot = int(rng.integers(1, 7))
+            thr = int(rng.choice([0, -3, 2]))
+            maps = [rng.integers(-4, 5, size=shape) for _ in range(nrot)]        # few distinct values: ties everywhere
+            # rotation matrices: distinct, except that a rotation may be submitted twice (same table entry)
+            mats = [np.eye(max(nd, 2), dtype=np.float32) * (k + 1) for k in range(nrot)]
+            first = list(range(nrot))
+            if nrot >= 3 and it % 3 == 0:
+                mats[nrot - 1] = mats[0]
+                first[nrot - 1] = 0
+            how = ["analyzer", "backend", "merge"][it % 3]
+            inp = {"shape": shape, "n_rot": nrot, "threshold": thr, "how": how, "maps": [m.reshape(-1).tolist() for m in maps],
+                   "rotation_of_submission": first}
+            try:
+                if how == "backend":
+                    best = np.full(shape, float(thr), np.float32)
+                    ids = np.full(shape, -1, np.int32)
+                    for r in range(nrot):
+                        be.max_score_over_rotations(scores=maps[r].astype(np.float32), max_scores=best, rotations=ids, rotation_index=first[r])
+                    got_v, got_i = best.astype(int).reshape(-1).tolist(), ids.astype(int).reshape(-1).tolist()
+                else:
+                    def one(rs):
+                        a = MaxScoreOverRotations(shape=tuple(shape), score_threshold=thr, thread_safe=False, shared_memory_handler=smh)
+                        for r in rs:
+                            a(scores=maps[r].astype(np.float32), rotation_matrix=mats[r])
+                        return tuple(a)
+                    if how == "analyzer" or nrot < 2:
+                        store = one(range(nrot))
+                    else:
+                        cut = int(rng.integers(1, nrot))
+                        store = MaxScoreOverRotations.merge([one(range(cut)), one(range(cut, nrot))], score_threshold=thr)
+                    sc, _, rot, table = store
+                    back = {int(v): k for k, v in table.items()}
+                    key_of = {mats[r].tobytes(): first[r] for r in range(nrot)}
+                    got_v = np.asarray(sc).astype(int).reshape(-1).tolist()
+                    got_i = [(-1 if int(x) == -1 else key_of.get(back.get(int(x)), -99)) for x in np.asarray(rot).reshape(-1)]
+            except Exception as e:  # noqa
+                ctx.agree("strict update == Model/C03.strictFoldMaps", inp, "raised " + type(e).__name__ + ": " + str(e)[:200], "values")
+                continue
+            reqs.append(("c03.strictFoldMaps", {"thr": thr, "size": size, "ids": first, "maps": [m.reshape(-1).tolist() for m in maps]}))
+            impls.append({"values": got_v, "ids": got_i})
+            inps.append(inp)
+            ctx.count("strict-update:" + how)
+            ctx.distinct(("strict", tuple(shape), nrot, thr, how, it))
+    for inp, impl, model in zip(inps, impls, d.batch(reqs)):
+        ctx.agree("strict update (max_score_over_rotations / MaxScoreOverRotations / merge) == Model/C03.strictFoldMaps", inp, impl, model)
+        # the same statement as a clause of the property: the reported rotation is one that attains the highest score of the voxel
+        maps = np.array(inp["maps"])
+        rot_of = np.array(inp["rotation_of_submission"])
+        ok = True
+        for k, (v, i) in enumerate(zip(impl["values"], impl["ids"])):
+            col = maps[:, k]
+            if col.max() <= inp["threshold"]:
+                ok &= (v == inp["threshold"] and i == -1)
+            else:
+                ok &= (v == col.max() and i >= 0 and bool((rot_of == i).any()) and col[rot_of == i].max() == col.max())
+        ctx.spec("every voxel keeps the highest submitted score and reports a rotation that attains it", inp, bool(ok), impl,
+                 key="aggregate:highest-score-and-its-rotation")
+
+
+# ---------------- planted copies under rotations that are NOT grid rotations (interpolated by the library itself)
+# The copy is produced with the backend's own rigid_transform, added on a target with a non-zero background level; the
+# default full-box mask (FLC) is clipped by such rotations, the spherical one (FLCSphericalMask) is not.
+def _planted_interpolated(ctx):
     from tme.backends import backend as be
     from tme.matching_utils import euler_to_rotationmatrix
+    rng = ctx.rng("planted-interpolated")
 
     def blobs(shape, r):
         grid = np.indices(shape).astype(np.float64)
@@ -279,6 +846,7 @@ def run(ctx):
             sg = r.uniform(1.0, 1.8)
             out += r.uniform(0.5, 1.5) * np.exp(-sum((g - ci) ** 2 for g, ci in zip(grid, c)) / (2 * sg ** 2))
         return out
+
     def far_apart(mats, deg=25.0):
         for i in range(len(mats)):
             for j in range(i):
@@ -301,7 +869,7 @@ def run(ctx):
         if nd == 2:
             a0 = float(rng.uniform(25, 95))
             angles = [(a0,), (a0 + 120.0,), (a0 + 240.0,)]
-            mats = [np.eye(2)] + [np.array([[np.cos(t), -np.sin(t)], [np.sin(t), np.cos(t)]]) for t in np.deg2rad([a[0] for a in angles])]
+            mats = [np.eye(2)] + [_rot2(a[0]) for a in angles]
         else:
             mats = None
             for _ in range(200):
@@ -328,10 +896,7 @@ def run(ctx):
         rot_ids, table = np.asarray(res[2]), dict(res[3])
         best = [int(x) for x in np.unravel_index(int(np.nanargmax(sc)), sc.shape)]
         rid = int(rot_ids[tuple(best)])
-        mat = None
-        for k, v in table.items():
-            if isinstance(k, (bytes, bytearray)) and int(v) == rid:
-                mat = np.frombuffer(k, dtype=np.float32 if len(k) == 4 * nd * nd else np.float64).reshape(nd, nd)
+        mat = _table_matrix(table, rid, nd)
         inp = {"score": score, "ns": ns, "ms": ms, "planted_at": p, "rotation_matrix": R[which].tolist(), "background": level,
                "interpolated": True, "seed_state": int(it)}
         ctx.spec("planted copy (interpolated rotation): highest score at the planted position, value ~ 1, planted rotation", inp,
